@@ -241,6 +241,7 @@ func run(c *rig.Ctx) {
 		}})
 
 	pairs(c)
+	fileWriters(c)
 
 	// (5) wiring through gameboy.New
 	c.Part("wiring", c.N(24, 180), func(i int64, r *rig.Rng) {
@@ -283,6 +284,17 @@ func run(c *rig.Ctx) {
 		}
 		os.Stdout = stdout
 		_, want, _ = progRun(p, frames*17556, true)
+		// the machine stays usable after its frame loop has been shut down: later SB stores
+		// still reach the writer it was configured with
+		if variant == 0 || variant == 3 {
+			gb.Cleanup()
+			tail := r.Bytes(5)
+			for _, v := range tail {
+				gb.XMapper().Write(0xff01, v)
+			}
+			want = append(want, tail...)
+			c.Count("wiring_stores_after_cleanup", 5)
+		}
 		if cfg.SerialWriter == nil {
 			want = nil
 			if sb, sc := gb.XMapper().Read(0xff01), gb.XMapper().Read(0xff02); sb != 0xff || sc != 0xff {
